@@ -93,83 +93,152 @@ def gen_ut(r, n, style):
     return 1.0, 2.0, 0.0
 
 
-def gen_case(g, tier, idx):
-    """one SUKFCorrection / UKFCorrection object pair driven through 1..3 successive calls.
-    Returns (harness line `sukfs ...`, [equivalent single-call `sukf ...` lines], meta)."""
-    r = g.r
-    mmax = 12 if tier == "quick" else 18
-    style = r.choice(["full", "full", "reduced", "reduced", "nondividing", "nondividing", "exactsqrt", "smallnoise", "affine", "fault", "wc0zero", "scalar", "circular", "circular"])
-    n = idx % 4 + 1 if idx < 8 else r.randint(1, 4)
-    nc = r.randint(1, n) if style == "circular" else 0      # the last nc state rows are Euler angles
-    bs = [1, 2, 3, 5, 6, 3, 2, 1][idx % 8] if idx < 16 else r.choice([1, 2, 2, 3, 3, 5, 6])
-    nbmax = max(1, min(4, mmax // bs))
-    nb = min(nbmax, idx % 4 + 1) if idx < 8 else r.randint(1, nbmax)
-    if idx >= 16 and nbmax >= 2 and r.random() < 0.6:
-        nb = r.randint(2, nbmax)                 # mostly several blocks
-    msz = nb * bs
-    red = 1 if style == "reduced" else (0 if style == "full" else r.randint(0, 1))
-    kind = 0 if style == "affine" else r.choice([0, 1, 1, 2, 2, 3])
-    if style == "scalar":
-        bs, nb, msz = 1, 1, 1                    # scalar measurement, a single block
-    if style == "nondividing":
-        bs = r.choice([2, 3, 5, 6])
-        msz = r.choice([v for v in range(1, mmax + 1) if v % bs != 0])
-    if style == "wc0zero":
-        alpha, beta, kap = 1.0, 0.0, 0.0          # lambda = 0: wc_0 = 0, the boundary of the guard
-    else:
-        alpha, beta, kap = gen_ut(r, n, style)
-    noise = 10 ** r.uniform(-3, -1.5) if style == "smallnoise" else 10 ** r.uniform(-1.5, 0.7)
+def make_object(g, r, spec):
+    """build one object (harness line + single-call lines) from a spec dict:
+    n, nc, bs, red, mszmax, ut, mv, noise, xscale, yscale, calls = [dict(k, msz, kind, fail, rscale, toggle, dup)]"""
+    n, nc, bs, red, mszmax = spec["n"], spec["nc"], spec["bs"], spec["red"], spec["mszmax"]
+    alpha, beta, kap = spec["ut"]
+    xs, ys = spec.get("xscale", 1.0), spec.get("yscale", 1.0)      # units of the state / of the measurement
+    noise = spec["noise"]
     if red:
         R = g.spd(bs, cond=10 ** r.uniform(0.3, 2.5), scale=noise)
+    elif spec.get("blockdiag", True):
+        R = vlib.mzeros(mszmax, mszmax)
+        for i in range((mszmax + bs - 1) // bs):
+            w = min(bs, mszmax - bs * i)
+            blk = g.spd(w, cond=10 ** r.uniform(0.3, 2.5), scale=noise * 10 ** r.uniform(-0.5, 0.5))   # distinct, non-isotropic blocks
+            for a in range(w):
+                for c in range(w):
+                    R[bs * i + a][bs * i + c] = blk[a][c]
     else:
-        R = vlib.mzeros(msz, msz)
-        if msz % bs == 0:
-            for i in range(msz // bs):
-                blk = g.spd(bs, cond=10 ** r.uniform(0.3, 2.5), scale=noise * 10 ** r.uniform(-0.5, 0.5))   # distinct, non-isotropic blocks
-                for a in range(bs):
-                    for c in range(bs):
-                        R[bs * i + a][bs * i + c] = blk[a][c]
-        else:
-            R = g.spd(msz, cond=10.0, scale=noise)
-    H = [[r.uniform(-1.5, 1.5) for _ in range(n)] for _ in range(msz)]
-    h0 = [r.uniform(-1, 1) for _ in range(msz)]
-    ncalls = r.choice([1, 2, 2, 3])
-    head = [str(n), str(nc), str(msz), str(bs), str(red)]
+        R = g.spd(mszmax, cond=10.0, scale=noise)
+    R = [[v * ys * ys for v in row] for row in R]
+    H = [[r.uniform(-1.5, 1.5) * ys / xs for _ in range(n)] for _ in range(mszmax)]
+    h0 = [r.uniform(-1, 1) * ys for _ in range(mszmax)]
     ut = [hexd(alpha), hexd(beta), hexd(kap)]
-    mid = vlib.fmt_mat_cm(H) + [hexd(v) for v in h0]
-    Rt = vlib.fmt_mat_cm(R)
-    htoks = ["sukfs"] + head + ut + [str(kind)] + mid + Rt + [str(ncalls)]
-    singles, ks, fails = [], [], []
-    for ci in range(ncalls):
-        k = r.choice([1, 2, 2, 3])
-        fail = (0, 0, 0)
-        if style == "fault" and r.random() < 0.6:
-            j = r.randrange(3)
-            fail = tuple(1 if i == j else 0 for i in range(3))
-        means = [[r.uniform(-2, 2) for _ in range(n)] for _ in range(k)]
-        Ps = [g.spd(n, cond=10 ** r.uniform(0, 3), scale=10 ** r.uniform(-1.5, 0.3)) for _ in range(k)]
+    htoks = ["sukfs", str(n), str(nc), str(mszmax), str(bs), str(red)] + ut + [str(spec.get("mv", 0))] \
+        + vlib.fmt_mat_cm(H) + [hexd(v) for v in h0] + vlib.fmt_mat_cm(R) + [str(len(spec["calls"]))]
+    singles = []
+    last_ok_msz = None
+    for cs in spec["calls"]:
+        k, msz, kind, fail = cs["k"], cs["msz"], cs["kind"], cs["fail"]
+        means = [[r.uniform(-2, 2) * xs for _ in range(n)] for _ in range(k)]
+        Ps = [[[v * xs * xs for v in row] for row in g.spd(n, cond=10 ** r.uniform(0, 3), scale=10 ** r.uniform(-1.5, 0.3))] for _ in range(k)]
+        if cs.get("dup") and k >= 2:
+            # near-duplicate components: equal, or equal up to a relative 1e-9 / one weak direction
+            for c in range(1, k):
+                eps = r.choice([0.0, 1e-9, 1e-6])
+                means[c] = [v * (1 + eps * r.uniform(-1, 1)) for v in means[0]]
+                Ps[c] = [[v * (1 + eps) for v in row] for row in Ps[0]]
         if nc:
             # angles anywhere in (-pi, pi], some next to the cut so that the sigma points wrap; spreads of the
             # circular rows kept small (|sqrt(c) sigma| well below pi: no aliasing, the sigma points reproduce P)
             for c in range(k):
                 for i in range(n - nc, n):
                     means[c][i] = r.choice([r.uniform(-3.1, 3.1), 3.1, -3.12, 3.14])
-                sc = [1.0] * (n - nc) + [0.05] * nc
+                sc = [1.0] * (n - nc) + [0.05 / xs] * nc
                 Ps[c] = [[Ps[c][a][b] * sc[a] * sc[b] for b in range(n)] for a in range(n)]
-        y = [r.uniform(-3, 3) for _ in range(msz)]
+        y = [r.uniform(-3, 3) * ys for _ in range(msz)]
         outw = [r.uniform(0.01, 1.0) for _ in range(k)]
         bel = [hexd(means[c][i]) for c in range(k) for i in range(n)] \
             + [hexd(Ps[c][i][j]) for c in range(k) for j in range(n) for i in range(n)] + [hexd(w) for w in outw]
         yt = [hexd(v) for v in y]
-        # the noise covariance reported in this call: rscale * R (a power of two: exact), time-varying noise
-        rscale = 1.0 if ci == 0 else r.choice([1.0, 0.5, 2.0, 4.0, 0.25])
-        Rc = vlib.fmt_mat_cm([[v * rscale for v in row] for row in R])
-        htoks += [str(k)] + [str(f) for f in fail] + [hexd(rscale)] + yt + bel
-        singles.append(" ".join(["sukf"] + head + [str(k)] + ut + [str(kind)] + [str(f) for f in fail] + mid + yt + Rc + bel))
-        ks.append(k); fails.append(list(fail))
-    meta = {"style": style, "n": n, "nc": nc, "msz": msz, "bs": bs, "red": red, "ks": ks, "kind": kind, "fails": fails,
-            "ut": [alpha, beta, kap], "calls": ncalls}
-    return " ".join(htoks), singles, meta
+        rscale = cs["rscale"]
+        Rc = [[v * rscale for v in row] for row in R] if red else [[R[a][b] * rscale for b in range(msz)] for a in range(msz)]
+        early = any(fail) or msz % bs != 0
+        # the serial likelihood is not queried where it would pair stale members of a different measurement size
+        qlik = 0 if (early and last_ok_msz is not None and last_ok_msz != msz) else 1
+        if not early:
+            last_ok_msz = msz
+        htoks += [str(k), str(msz), str(kind)] + [str(f) for f in fail] + [hexd(rscale), str(cs.get("toggle", 0)), str(qlik)] + yt + bel
+        singles.append(" ".join(["sukf", str(n), str(nc), str(msz), str(bs), str(red), str(k)] + ut + [str(kind)] + [str(f) for f in fail]
+                                + vlib.fmt_mat_cm(H[:msz]) + [hexd(v) for v in h0[:msz]] + yt + vlib.fmt_mat_cm(Rc) + bel))
+    return " ".join(htoks), singles
+
+
+def gen_case(g, tier, idx):
+    """one SUKFCorrection / UKFCorrection object pair driven through 1..3 successive calls.
+    Returns (harness line `sukfs ...`, [equivalent single-call `sukf ...` lines], meta)."""
+    r = g.r
+    mmax = 12 if tier == "quick" else 18
+    style = r.choice(["full", "full", "reduced", "reduced", "nondividing", "nondividing", "exactsqrt", "smallnoise", "affine", "fault", "wc0zero",
+                      "scalar", "circular", "circular", "varsize", "varsize", "scaled", "scaled", "dupcomp", "manyblocks", "moved"])
+    n = idx % 4 + 1 if idx < 8 else r.randint(1, 4)
+    nc = r.randint(1, n) if style == "circular" else 0      # the last nc state rows are Euler angles
+    bs = [1, 2, 3, 5, 6, 3, 2, 1][idx % 8] if idx < 16 else r.choice([1, 2, 2, 3, 3, 5, 6])
+    nbmax = max(1, min(4, mmax // bs))
+    if style == "manyblocks":
+        bs = r.choice([1, 1, 2])
+        nbmax = mmax // bs
+    nb = min(nbmax, idx % 4 + 1) if idx < 8 else r.randint(1, nbmax)
+    if idx >= 16 and nbmax >= 2 and r.random() < 0.6:
+        nb = r.randint(2, nbmax)                 # mostly several blocks
+    if style == "manyblocks":
+        nb = r.randint(max(2, nbmax - 4), nbmax)
+    msz = nb * bs
+    red = 1 if style == "reduced" else (0 if style == "full" else r.randint(0, 1))
+    kind = 0 if style == "affine" else r.choice([0, 1, 1, 2, 2, 3])
+    if style == "scalar":
+        bs, nb, msz = 1, 1, 1                    # scalar measurement, a single block
+    blockdiag = True
+    if style == "nondividing":
+        bs = r.choice([2, 3, 5, 6])
+        msz = r.choice([v for v in range(1, mmax + 1) if v % bs != 0])
+        blockdiag = r.random() < 0.5
+    if style == "wc0zero":
+        ut = (1.0, 0.0, 0.0)          # lambda = 0: wc_0 = 0, the boundary of the guard
+    else:
+        ut = gen_ut(r, n, style)
+    noise = 10 ** r.uniform(-3, -1.5) if style == "smallnoise" else 10 ** r.uniform(-1.5, 0.7)
+    xscale = yscale = 1.0
+    if style == "scaled":
+        # units: the property constrains shapes and conditioning, not magnitudes (affine h: the scaling is exact in R)
+        kind = 0
+        ylim = min(10.0, 120.0 / msz)      # det(S) ~ yscale^(2 msz) must stay inside the double range (the code takes log(det))
+        xscale, yscale = 10 ** r.uniform(-10, 10), 10 ** r.uniform(-ylim, ylim)
+    ncalls = r.choice([1, 2, 2, 3])
+    if style in ("varsize", "moved"):
+        ncalls = r.choice([2, 3, 3])
+    calls = []
+    for ci in range(ncalls):
+        fail = (0, 0, 0)
+        if style == "fault" and r.random() < 0.6:
+            j = r.randrange(3)
+            fail = tuple(1 if i == j else 0 for i in range(3))
+        m_c = msz
+        if style == "varsize" and ci > 0:
+            # the measurement size changes between calls (non-monotone), sometimes to a non-multiple of the block size
+            m_c = r.choice([bs * v for v in range(1, msz // bs + 1)] + ([r.randint(1, msz)] if bs > 1 else []))
+        calls.append({"k": r.choice([1, 2, 2, 3]), "msz": m_c, "fail": fail,
+                      "kind": kind if (ci == 0 or style in ("affine", "scaled") or r.random() < 0.5) else r.choice([0, 1, 2, 3]),
+                      "rscale": 1.0 if ci == 0 else r.choice([1.0, 0.5, 2.0, 4.0, 0.25]),
+                      "toggle": 1 if r.random() < 0.2 else 0, "dup": style == "dupcomp"})
+    if style == "dupcomp":
+        for cs in calls:
+            cs["k"] = r.choice([2, 3])
+    spec = {"n": n, "nc": nc, "bs": bs, "red": red, "mszmax": msz, "ut": ut, "noise": noise, "xscale": xscale, "yscale": yscale,
+            "mv": r.choice([1, 2]) if style == "moved" else 0, "blockdiag": blockdiag, "calls": calls}
+    hline, singles = make_object(g, r, spec)
+    meta = {"style": style, "n": n, "nc": nc, "msz": msz, "bs": bs, "red": red, "ks": [c["k"] for c in calls], "kind": kind,
+            "fails": [list(c["fail"]) for c in calls], "ut": list(ut), "calls": ncalls, "mv": spec["mv"]}
+    return hline, singles, meta
+
+
+def grid_cases(g, tier):
+    """every (block size, measurement size) pair, bs 1..6 x msz 1..12: the size clause in both directions
+    (multiples must be corrected like the standard correction, non-multiples left bit-identical), exhaustively"""
+    r = g.r
+    out = []
+    for bs in range(1, 7):
+        for msz in range(1, 13):
+            n = 1 + (bs + msz) % 2
+            spec = {"n": n, "nc": 0, "bs": bs, "red": (bs + msz) % 2 if msz % bs == 0 else r.randint(0, 1), "mszmax": msz,
+                    "ut": (1.0, 2.0, 0.0), "noise": 0.3, "blockdiag": True,
+                    "calls": [{"k": 1, "msz": msz, "kind": 1, "fail": (0, 0, 0), "rscale": 1.0, "toggle": 0}]}
+            hline, singles = make_object(g, r, spec)
+            out.append((hline, singles, {"style": "sizegrid", "n": n, "nc": 0, "msz": msz, "bs": bs, "red": spec["red"], "ks": [1],
+                                         "kind": 1, "fails": [[0, 0, 0]], "calls": 1}))
+    return out
 
 
 def split_calls(hout, ncalls):
@@ -228,7 +297,8 @@ def parse_hout(h, c):
     o["X"] = t[p:p + n * xc]; o["xcols"] = xc; p += n * xc
     assert t[p] == "Y"; yc = int(t[p + 1]); p += 2
     o["Y"] = t[p:p + msz * yc]; o["ycols"] = yc; p += msz * yc
-    o["same"] = t[p] == "in-same"
+    o["same"] = t[p] == "in-same"; p += 1
+    o["likrep"] = (t[p] == "likrep-same") if p < len(t) else True
     return o
 
 
@@ -255,9 +325,9 @@ def unwrapped_X(c, o):
 def driver_line(c, o):
     n, msz, bs, red, k, s = c["n"], c["msz"], c["bs"], c["red"], c["k"], o["s"]
     zero = hexd(0.0)
-    X = unwrapped_X(c, o) if o["xcols"] == s * k else [zero] * (n * s * k)
+    X = o["X"] if o["xcols"] == s * k else [zero] * (n * s * k)       # as the implementation's sigma_point() returned them
     Y = o["Y"] if o["ycols"] == s * k else [zero] * (msz * s * k)
-    toks = ["sukf", str(n), str(msz), str(bs), str(red), str(k), str(s)] + [str(1 - f) for f in c["fail"]]
+    toks = ["sukf", str(n), str(c["nc"]), str(msz), str(bs), str(red), str(k), str(s)] + [str(1 - f) for f in c["fail"]]
     toks += c["y"] + o["wm"] + o["wc"] + c["means"] + c["covs"] + c["outw"] + X + Y + c["Rt"]
     return " ".join(toks)
 
@@ -358,6 +428,8 @@ def relrec(stats, key, err, tol):
 
 
 def lik_close(a, b, t):
+    if a == b:
+        return True
     big = max(abs(a), abs(b))
     return math.isfinite(a) and math.isfinite(b) and abs(a - b) <= big * math.expm1(min(t, 50.0)) + 8 * EPS * big + TINY
 
@@ -371,6 +443,8 @@ def check_case(line, meta, hout, dline, dout, stats, notes):
     o = parse_hout(hout, c)
     if not o["same"]:
         notes["predicted_belief_modified"] = notes.get("predicted_belief_modified", 0) + 1
+    if not o["likrep"]:
+        probs.append(("prop", "likelihood-not-repeatable", "getLikelihood() asked three times after the same correction gave different answers"))
     if o["prelik"]:
         notes["likelihood_reported_before_any_correction"] = notes.get("likelihood_reported_before_any_correction", 0) + 1
     divides = msz % bs == 0
@@ -384,6 +458,9 @@ def check_case(line, meta, hout, dline, dout, stats, notes):
             notes["size_mismatch:weights_not_copied"] = notes.get("size_mismatch:weights_not_copied", 0) + 1
         if o["s_lik_valid"]:
             notes["size_mismatch:likelihood_reported"] = notes.get("size_mismatch:likelihood_reported", 0) + 1
+    if (faulty or not divides) and o["s_lik_valid"]:
+        # stale members: a likelihood is reported although this call corrected nothing (recorded; see design note)
+        notes["early_return:likelihood_reported_anyway"] = notes.get("early_return:likelihood_reported_anyway", 0) + 1
     if faulty:
         # outside C05 (C12): recorded only
         keyn = "fault:belief_identical" if (o["s_mean"] == c["means"] and o["s_cov"] == c["covs"]) else "fault:belief_changed"
@@ -416,7 +493,8 @@ def check_case(line, meta, hout, dline, dout, stats, notes):
                              "corrects it (mean differs by %.3g, covariance by %.3g)"
                              % (msz, bs, "returned the predicted belief unchanged" if not changed else "did not evaluate the measurement model", dm, dc))]
     if not performed:
-        return probs + [("prop", "no-sigma-points", "the serial correction changed the belief without evaluating the measurement model on %d sigma points (asked about %d / told %d columns)" % (s_pts * k, o["xcols"], o["ycols"]))]
+        return probs + [("prop", "no-sigma-points", "a valid measurement of admissible size was not used by the serial correction: the measurement model was not evaluated on "
+                         "the %d sigma points (asked about %d / told %d columns); belief %s" % (s_pts * k, o["xcols"], o["ycols"], "changed nevertheless" if changed else "returned unchanged"))]
     if not all(math.isfinite(v) for v in sm + sc):
         return probs + [("prop", "non-finite", "serial correction returned non-finite mean/covariance entries on a valid input")]
     if not ("u_mean" in o):
@@ -432,7 +510,8 @@ def check_case(line, meta, hout, dline, dout, stats, notes):
         probs.append(("corr", "model-no-likelihood", "model took an early return where the implementation did not"))
         return probs
     wc = [Fraction(unhex(v)) for v in o["wc"]]
-    all_exact = all(exact_sqrt(w) for w in wc)
+    # exact only without circular rows: directional_sub goes through Float sin / cos / atan2 in the model run
+    all_exact = all(exact_sqrt(w) for w in wc) and c["nc"] == 0
     if any(w < 0 for w in wc):
         notes["negative_weight_generated"] = notes.get("negative_weight_generated", 0) + 1
     for i in range(k):
@@ -527,13 +606,15 @@ def run(ctx):
     binary = vlib.build_harness("h_sukf")
     cases = corpus_cases()       # (harness line, [single-call lines], meta)
     g = ctx.gen("sukf")
-    for i in range(ctx.n(160, 2500)):
+    cases += grid_cases(ctx.gen("sukf-grid"), ctx.tier)      # exhaustive over (block size, measurement size)
+    for i in range(ctx.n(140, 2500)):
         cases.append(gen_case(g, ctx.tier, i))
     if ctx.replay:
         rep = json.load(open(ctx.replay))["replay"]
         cases = [(rep["input_line"], rep.get("single_call_lines", [rep["input_line"]]), meta_of_single(rep.get("single_call_lines", [rep["input_line"]])[0], "replay"))]
         cases[0][2]["calls"] = len(cases[0][1])
-    hout, logs = vlib.run_harness(binary, [c[0] for c in cases])
+    from checks.c15 import run_harness_confirmed
+    hout, logs, retried = run_harness_confirmed(binary, [c[0] for c in cases])
     # per-call records: (object index, call index, single line, harness output of that call)
     calls = []
     for oi, ((hline, singles, meta), h) in enumerate(zip(cases, hout)):
@@ -620,12 +701,12 @@ def run(ctx):
         "style_histogram": hist, "branch_histogram": branch, "numeric": stats, "notes_outside_property": notes,
         "traces_validated_against_impl": len([d for d in dmap if d is not None]),
         "model_vs_impl_disagreements": len(corr_bad), "property_failures_on_impl": len(prop_bad),
-        "sanitizer_crashes": len(logs),
+        "sanitizer_crashes": len(logs), "crashed_cases_rerun_individually": retried,
     })
     ctx.assumptions += [
         "inverse routine: every matrix the model run inverts is inverted once and certified exactly over Q (A X = 1, X A = 1)",
         "sigma_point() contract (C03): the input sigma points reproduce the predicted covariance; measured on every case (numeric.max_hx_err)",
         "floating point: tolerances scaled by cond(S) for the standard correction and cond(I + Y^T R^-1 Y), cond(R blocks) for the serial one",
-        "linear measurement space; state rows linear or Euler-circular with small angular spread (the offsets of circular rows are taken as "
-        "directional_sub of the implementation's sigma points, evaluated by the check: wrap into (-pi, pi]); quaternion layouts: C03, C14",
+        "linear measurement space; state rows linear or Euler-circular with small angular spread (directional_sub of the circular rows is inside the "
+        "model: sukfDirSub); quaternion layouts: C03, C14",
     ]
